@@ -2,6 +2,7 @@
 import numpy as np
 
 from pyvc.arr import SymArr, as_array, havoc_array, new_array
+from pyvc.concrete import wrap
 from pyvc.contract import Contract, register
 from pyvc.core import and_, ctx, iff, implies, is_sym, ite, not_, or_
 from pyvc.spec import All, Forall
@@ -134,6 +135,14 @@ class CheckFitInput(Contract):
             elif mode == "bad_count" and ncomp > 1:
                 w = tuple(weights[:-1])
             yield (tuple(coords), d, w), dict(unpack=rng.random() < 0.5)
+        # weights as a pandas Series whose index is NOT 0..n-1 in order (a column of a sorted / shuffled table): what
+        # comes back must be a plain, positionally indexed 1-D array
+        import pandas as pd
+
+        for _ in range(4):
+            n = rng.randint(3, 9)
+            e, nn, dd, ww = (nrng.uniform(-3, 3, n) for _ in range(4))
+            yield ((e, nn), dd, pd.Series(np.abs(ww) + 0.1, index=nrng.permutation(n))), dict(unpack=True)
 
     def ensures(self, a, r):
         ok = isinstance(r, tuple) and len(r) == 3
@@ -155,6 +164,6 @@ class CheckFitInput(Contract):
             out["weights_are_1d"] = okw
             if okw:
                 for k, (x, y) in enumerate(zip(win, wout)):
-                    f = flat(x)
+                    f = flat(wrap(np.asarray(x)) if type(x).__name__ == "Series" else x)
                     out["weight%d_is_c_order_ravel_of_its_own_component" % k] = All(y.shape[0] == f.shape[0], Forall(f.shape, lambda p, f=f, y=y: y.at(p) == f.at(p)))
         return out
